@@ -75,3 +75,22 @@ reg("C03", "c03", [("qp", "plain", 1)], "exploration",
                "documented gap criteria, every accuracy field); ~2e4 quick / 4e5 thorough solves.",
     level_note="Trusts numpy and vlib/ref_cone.py.",
     design_ref="4/C03")
+
+reg("C05", "c05", [("classify", "plain", 1)], "exploration",
+    rule=CONE_GEN + "only planted classes (strictly primal-dual feasible LPs and QPs with rank-deficient P allowed; "
+         "strict Farkas certificate with a dual feasible point; strictly improving ray with a primal feasible point), "
+         "kept only when cond([G;A]) resp. cond([P;G;A]) <= 1e3 and rank(A)=p (SVD); each instance is solved through two "
+         "presentations (conelp vs lp/socp/sdp wrapper, coneqp vs qp, dense/sparse) with the default KKT solver and "
+         "default options. Non-trivial = instance with >=2 cone types, equality constraints or rank-deficient P; "
+         "distinct = SHA-1 of case JSON.",
+    assumptions=["'unknown' is accepted on a feasible instance only if the recomputed residuals and gap are <= 1e-5 "
+                 "(the property's escape clause)",
+                 "objective agreement is judged with the weak-duality bracket [dual obj - e, primal obj + e], "
+                 "e = gap + 10*(residual norms x iterate/planted norms); HiGHS (scipy) is the LP reference",
+                 "cpl/cp are exercised by C04; here conelp, coneqp and their wrappers"],
+    technique="property-based testing (Hypothesis) on planted instances; oracle = planted truth + weak duality + HiGHS differential",
+    level_text="On ~1e4 (quick) / 2e5 (thorough) planted, moderately conditioned instances every native solve must "
+               "classify correctly (optimal / primal infeasible / dual infeasible), raise nothing, and give an "
+               "objective consistent with the planted primal/dual points, the other solver path and HiGHS.",
+    level_note="Trusts the planted constructions (verified per case by SVD and, for LPs, by HiGHS), numpy, scipy HiGHS.",
+    design_ref="4/C05")
